@@ -2,10 +2,10 @@ import SqlObjVerif.Model.OrmVal
 import SqlObjVerif.Model.DrvUtil
 /-! Driver for C16 (same protocol and model as `Drv/C05.lean`).  One request per line:
 
-`reset docache lazy0 cv0 n0 fk0 … ` (fk: `-`, `n<T>` = ForeignKey to class T cascade='null', `c<T>` = cascade=True) | `create h cls id c=v…` | `fetch h cls id 0|1` | `refresh h` | `selstmt cls` |
+`reset docache lazy0 cv0 n0 fk0 codec0 … ` (codec: `-` or `j<col>` = that column stores a tagged representation: stored = shown + 1000) (fk: `-`, `n<T>` = ForeignKey to class T cascade='null', `c<T>` = cascade=True) | `create h cls id c=v…` | `fetch h cls id 0|1` | `refresh h` | `selstmt cls` |
 `read h c` | `setattr h c v fail` | `set h fail c=v…` | `syncupdate h fail` | `sync h fail` | `expire h` |
 `expireall` | `expireallcls cls` | `destroy h [S<k> | r<hr> | R<hr>:<k>:<id>]…` (dependents loop: select over class k, held / library-built referencing instance) | `pickle h fail` | `drop h` | `oobupdate cls id c v` |
-`oobdelete cls id` | `oobinsert cls id c=v…` | `peek h` | `row cls id`
+`oobdelete cls id` | `bulkdelete cls id…` | `oobinsert cls id c=v…` | `peek h` | `row cls id`
 Values: integer, `N` (None), `B` (rejected by the validator).
 Answer of an operation: `<out> | <statements sent by it> | u=<UPDATE statements sent by it>`. -/
 namespace SqlObjVerif.OrmVal.Drv
@@ -30,6 +30,7 @@ def showStmt : Stmt → String
   | .selectCol c i k => s!"Sc {c} {i} {k}"
   | .selectCls c => s!"Sa {c}"
   | .selectRefs k c i => s!"Sr {k} {c} {i}"
+  | .deleteWhere c => s!"Dw {c}"
 
 def showOut : Out → String
   | .ok => "ok"
@@ -70,18 +71,30 @@ def fk? (s : String) : Option (Option (Cls × FkKind)) :=
   else if s.startsWith "c" then ((s.drop 1).toNat?).map fun t => some (t, FkKind.cascade)
   else none
 
-def parseCfg : List String → Option (List (Bool × Bool × Nat × Option (Cls × FkKind)))
+def codec? (s : String) : Option (Option Col) :=
+  if s == "-" then some none
+  else if s.startsWith "j" then ((s.drop 1).toNat?).map some
+  else none
+
+def parseCfg : List String → Option (List (Bool × Bool × Nat × Option (Cls × FkKind) × Option Col))
   | [] => some []
-  | l :: c :: n :: f :: r => match bool? l, bool? c, n.toNat?, fk? f, parseCfg r with
-    | some l, some c, some n, some f, some rest => some ((l, c, n, f) :: rest)
-    | _, _, _, _, _ => none
+  | l :: c :: n :: f :: j :: r => match bool? l, bool? c, n.toNat?, fk? f, codec? j, parseCfg r with
+    | some l, some c, some n, some f, some j, some rest => some ((l, c, n, f, j) :: rest)
+    | _, _, _, _, _, _ => none
   | _ => none
 
-def mkCfg (doCache : Bool) (l : List (Bool × Bool × Nat × Option (Cls × FkKind))) : Cfg :=
+/-- the abstract codec of a "JSON" column: the stored representation is the shown value tagged (+1000);
+    NULL ↔ None -/
+def encJ (v : Val) : Val := v.map (· + 1000)
+def decJ (v : Val) : Val := v.map (· - 1000)
+
+def mkCfg (doCache : Bool) (l : List (Bool × Bool × Nat × Option (Cls × FkKind) × Option Col)) : Cfg :=
   { lazyUpdate := fun c => (l[c]?.map (·.1)).getD false,
     cacheValues := fun c => (l[c]?.map (·.2.1)).getD true,
     ncols := fun c => (l[c]?.map (·.2.2.1)).getD 0,
-    fk := fun c => (l[c]?.map (·.2.2.2)).getD none,
+    fk := fun c => (l[c]?.map (·.2.2.2.1)).getD none,
+    enc := fun c k v => if (l[c]?.map (·.2.2.2.2)).getD none = some k then encJ v else v,
+    dec := fun c k v => if (l[c]?.map (·.2.2.2.2)).getD none = some k then decJ v else v,
     doCache := doCache }
 
 def refStep? (s : String) : Option RefStep :=
@@ -132,6 +145,9 @@ def parseOp (ws : List String) : Option Op :=
     | some h, some f => some (.pickle h f)
     | _, _ => none
   | ["drop", h] => h.toNat?.map .drop
+  | "bulkdelete" :: c :: ids => match c.toNat?, all? (ids.map (·.toNat?)) with
+    | some c, some ids => some (.bulkDelete c ids)
+    | _, _ => none
   | ["oobupdate", c, i, k, v] => match c.toNat?, i.toNat?, k.toNat?, val? v with
     | some c, some i, some k, some v => some (.oobUpdate c i k v)
     | _, _, _, _ => none
